@@ -220,6 +220,68 @@ class SMG_subgraph_1(LoopInv):
         ]
 
 
+def _rho_inv(ctx):
+    """the renaming given as `mapping` (identity outside its keys) and the inverse function named by the contract"""
+    m = ctx.fr.env["mapping"]
+    hE = ctx.h_entry
+    rho = lambda x: z3.If(hE.d_has(H.D_INTINT, m.ref, x), hE.d_get(H.D_INTINT, m.ref, x), x)  # noqa
+    inv = ctx.interp.state["contract_sym"]["inv"]
+    return rho, inv
+
+
+class SMG_relabel_0(LoopInv):
+    """for central_atom, stereo in self._atom_stereo.items():
+           new_atom_stereo_dict[mapping.get(central_atom, central_atom)] = stereo.__class__(tuple(mapping.get(a, a) for a in stereo.atoms), stereo.parity)"""
+    modifies_dict_dom = ("astereo",)
+    modifies_dict_val = ("astereo",)
+    accumulators = {"new_atom_stereo_dict": "astereo"}
+
+    def inv(self, ctx, done):
+        acc = ctx.fr.env["new_atom_stereo_dict"]
+        v0 = ctx.v_entry
+        h = H.heap_of(ctx.interp)
+        rho, inv = _rho_inv(ctx)
+        y = z3.Int("ly")
+        x = z3.Int("lx")
+        osome = H.ODescrS.DSome
+        view = z3.If(h.d_has(H.D_ASTEREO, acc.ref, y), osome(h.d_get(H.D_ASTEREO, acc.ref, y)), H.ODescrS.DNone)
+        src = inv(y)
+        return [
+            ("visited-are-keys", FA([x], z3.Implies(z3.Select(done, x), z3.Select(ctx.C, x)), patterns=[z3.Select(done, x)])),
+            ("renamed-descriptors-of-the-visited-centres-collected",
+             FA([y], view == z3.If(z3.And(z3.Select(done, src), v0.as_has(src), rho(src) == y), osome(GM.d_relabel(v0.as_val(src), rho)), H.ODescrS.DNone))),
+            ("only-the-new-table-is-written", _frame_other_refs(ctx, "astereo", acc.ref)),
+        ]
+
+
+class SMG_relabel_1(LoopInv):
+    """for bond, bond_stereo in self._bond_stereo.items():
+           new_bond_stereo_dict[frozenset(mapping.get(a, a) for a in bond)] = bond_stereo.__class__(tuple(mapping.get(a, a) for a in bond_stereo.atoms), bond_stereo.parity)"""
+    modifies_dict_dom = ("bstereo",)
+    modifies_dict_val = ("bstereo",)
+    accumulators = {"new_bond_stereo_dict": "bstereo"}
+
+    def inv(self, ctx, done):
+        acc = ctx.fr.env["new_bond_stereo_dict"]
+        v0 = ctx.v_entry
+        h = H.heap_of(ctx.interp)
+        rho, inv = _rho_inv(ctx)
+        b = z3.Const("lb", BondS)
+        y = z3.Const("lyb", BondS)
+        osome = H.ODescrS.DSome
+        view = z3.If(h.d_has(H.D_BSTEREO, acc.ref, y), osome(h.d_get(H.D_BSTEREO, acc.ref, y)), H.ODescrS.DNone)
+        src = mkbond(inv(BondS.lo(y)), inv(BondS.hi(y)))
+        img = mkbond(rho(BondS.lo(src)), rho(BondS.hi(src)))
+        return [
+            ("visited-are-keys", FA([b], z3.Implies(z3.Select(done, b), z3.Select(ctx.C, b)), patterns=[z3.Select(done, b)])),
+            ("renamed-descriptors-of-the-visited-bonds-collected",
+             FA([y], z3.Implies(BondS.lo(y) < BondS.hi(y),
+                                view == z3.If(z3.And(z3.Select(done, src), v0.bs_has(src), img == y), osome(GM.d_relabel(v0.bs_val(src), rho)), H.ODescrS.DNone)))),
+            ("keys-are-normalised-bonds", FA([y], z3.Implies(h.d_has(H.D_BSTEREO, acc.ref, y), BondS.lo(y) < BondS.hi(y)), patterns=[h.d_has(H.D_BSTEREO, acc.ref, y)])),
+            ("only-the-new-table-is-written", _frame_other_refs(ctx, "bstereo", acc.ref)),
+        ]
+
+
 def _chg_view(vv, atomic, k, c):
     if atomic:
         return z3.If(z3.And(vv.ac_has(k), vv.ac_slot_has(k, c)), vv.ac_slot(k, c), H.ODescrS.DNone)
@@ -364,6 +426,8 @@ def _role_loop(label):
 
 
 LOOPS = {
+    ("graphs/smg.py", "StereoMolGraph.relabel_atoms", 0): SMG_relabel_0,
+    ("graphs/smg.py", "StereoMolGraph.relabel_atoms", 1): SMG_relabel_1,
     ("graphs/scrg.py", "StereoCondensedReactionGraph.subgraph", 1): SCRG_subgraph_1,
     ("graphs/smg.py", "StereoMolGraph.subgraph", 0): SMG_subgraph_0,
     ("graphs/smg.py", "StereoMolGraph.subgraph", 1): SMG_subgraph_1,
